@@ -82,6 +82,24 @@ def run(ctx):
         somes = common.blocks_with_agg(F, r"core::option::Option", "Some")
         ok = len(ta) == 1 and len(fa) == 1 and m[ta[0]] == "Modified" and m[fa[0]] == "Created" and any(fba.edge_dominates((sw, t_t), s) for s in somes)
     ctx.ob("R13.5", "%s|chosen=Modified,earlier=Created,first-wins" % F.key, ok, where=F.span, detail="existing candidate: Modified edge + return; missing: Created edge + continue")
+    if len(exf) == 1 and len(adds) == 2:
+        sw, t_t, f_t, cbb = exf[0]
+        nxt = fba.calls(r".*::iterator::Iterator>?::next")
+        fa2 = [a for a in adds if fba.edge_dominates((sw, f_t), a)]
+        common.mpt(ctx, "R13.5", "%s|every-missing-candidate-recorded" % F.key, F, [f_t], nxt + common.ok_returns(F), fa2,
+                   "every candidate found missing gets its Created edge before the search goes on", "a missing higher-priority candidate can be skipped without a Created edge: creating it later does not rebuild the target")
+    P = prog.one(r"paths::possible_do_files")
+    pba = BA.of(P)
+    np_ = pba.calls(r"helpers::normpath")
+    ok = False
+    if np_:
+        a = op_local(P.blocks[np_[0]]["term"]["args"][0])
+        sl, org, _ = backward_direct(P, a, depth=40)
+        ok = 1 in sl or any(o[0] == "call" and any(op_local(x) == 1 or 1 in pba.ref_chain(op_local(x)) for x in o[2]["args"] if op_local(x) is not None) for o in org)
+        aggs = [i for i, _, st in anchors.agg_sites(P, r"paths::PossibleDoFiles|paths::DoFilesState")]
+        ok = ok and all(pba.dominates(np_[0], i) for i in aggs) and bool(aggs)
+    ctx.ob("R13.1", "possible_do_files|cleans-the-path-first", ok, where=P.span,
+           detail="the enumerator starts from helpers::normpath(p)" if ok else "the enumerator walks the raw spelling: `sub/../thing` visits sub/ which is not an ancestor of the target")
 
     # ---- R13.3
     sba = BA.of(SS)
